@@ -16,6 +16,7 @@ import (
 	"verifh/internal/data"
 	"verifh/internal/fw"
 	"verifh/internal/jx"
+	"verifh/internal/prog"
 	"verifh/internal/rec"
 )
 
@@ -79,6 +80,10 @@ func c11exec(t *jet.Template, tag string) string {
 		return b.String() + "|ERR:" + res.Err.Error()
 	}
 	return b.String()
+}
+
+func c11obs(o prog.Observed) string {
+	return fmt.Sprintf("out=%q err=%v parse=%v panic=%v probes=%v vars=%v", o.Out, o.Err, o.ParseErr, o.Panic, o.ProbeLog, o.VarsAfter)
 }
 
 type c11regIn struct {
@@ -189,6 +194,24 @@ func c11run(c *fw.Ctx, idx int) {
 	}
 	devSet := jet.NewSet(devInner, jet.InDevelopmentMode())
 
+	// generated programs (the C01/C07/C13 generator with everything switched on), each on a Set of its own that all
+	// goroutines share and that has loaded nothing yet; expected = what the same program yields alone on another Set
+	const nprog = 5
+	var progs []*prog.Program
+	var progSets []*jet.Set
+	var progWant []prog.Observed
+	for len(progs) < nprog {
+		cfg := prog.Cfg{Items: 3, MaxDepth: 3, Ifs: true, Ranges: true, Vars: true, Blocks: true, MultiFile: true, Includes: true, Try: true, Fails: r.Intn(2) == 0, Ctx: true,
+			ExecNoReturn: true, IncludeIfExists: true, SharedNames: true, IncludeLoop: true, Writers: []string{"raw", "unsafe", "safeHtml"}}
+		p, _ := prog.Gen(r, cfg)
+		if m := prog.Eval(p); m.Unspecified != "" {
+			continue
+		}
+		progs = append(progs, p)
+		progWant = append(progWant, p.Run(prog.RunOpts{}))
+		progSets = append(progSets, p.NewSet(false))
+	}
+
 	start := time.Now()
 	now := func() int64 { return int64(time.Since(start)) }
 	var mu sync.Mutex
@@ -213,7 +236,7 @@ func c11run(c *fw.Ctx, idx int) {
 			rr := rand.New(rand.NewSource(seeds[g]))
 			local := map[string]int{}
 			for i := 0; i < ops; i++ {
-				switch k := rr.Intn(20); {
+				switch k := rr.Intn(25); {
 				case k < 8: // GetTemplate + Execute of a stable template
 					name := c11stable[rr.Intn(len(c11stable))]
 					t, err := set.GetTemplate(name)
@@ -291,6 +314,15 @@ func c11run(c *fw.Ctx, idx int) {
 					t0 := now()
 					devInner.Set(key, val)
 					record(porcupine.Operation{ClientId: g, Input: c11regIn{Key: key, Write: true, Val: val}, Call: t0, Output: "", Return: now()})
+				case k >= 20: // a generated program on its shared Set
+					pi := rr.Intn(nprog)
+					local["generated program GetTemplate+Execute"]++
+					o := progs[pi].Run(prog.RunOpts{Set: progSets[pi]})
+					if got, exp := c11obs(o), c11obs(progWant[pi]); got != exp {
+						mu.Lock()
+						mismatches = append(mismatches, fmt.Sprintf("generated program %d: concurrently %.600s, alone %.600s; files %v", pi, got, exp, progs[pi].Sources(false)))
+						mu.Unlock()
+					}
 				default: // dev-mode GetTemplate + Execute = read
 					key := fmt.Sprintf("/dev%d.jet", rr.Intn(3))
 					local["dev-mode GetTemplate+Execute"]++
@@ -355,7 +387,7 @@ func init() {
 	fw.Register(&fw.Property{
 		ID:        "C11",
 		Technique: "Go race detector over a concurrent workload + serial-result comparison of every concurrent Execute + porcupine linearizability check of recorded global/dev-mode-template register histories",
-		Rule: "each case is one round: 16 (thorough 32) goroutines issue 120 (400) random operations on one Set: GetTemplate+Execute of 9 stable templates (extends/import/blocks, ranges of every ranger kind incl. nested, field access on struct types minted per execution, include, try, functions, escaping), first-time loads of 6 templates requested by several goroutines at once, Parse+Execute, AddGlobal/LookupGlobal/executions rendering a global, " +
+		Rule: "each case is one round: 16 (thorough 32) goroutines issue 120 (400) random operations on one Set: GetTemplate+Execute of 9 stable templates (extends/import/blocks, ranges of every ranger kind incl. nested, field access on struct types minted per execution, include, try, functions, escaping) and of 5 generated template sets per round (the program generator with blocks, includes, try, failures, SafeWriters, exec switched on; each on a cold Set of its own shared by all goroutines), first-time loads of 6 templates requested by several goroutines at once, Parse+Execute, AddGlobal/LookupGlobal/executions rendering a global, " +
 			"and on a development-mode Set InMemLoader.Set versus GetTemplate+Execute; the recording loader/cache yield or sleep 0-80us inside every call; oracles: zero race-detector reports and no fatal error (worker death), every concurrent Execute on unedited inputs equals the output computed alone beforehand, " +
 			"the timed history of writes (AddGlobal, loader Set with unique tokens) and reads (LookupGlobal, rendering executions) is linearizable as one register per key (porcupine, 60 s timeout = inconclusive); non-trivial/distinct = rounds (each with its own interleavings; overlapping operation pairs and first-time loads are reported)",
 		Assumptions: []string{"interleavings are those the scheduler produced in this run (reported as overlapping pairs), not all interleavings", "non-development first loads are not modelled as registers (two concurrent first loads may cache either version)"},
